@@ -270,59 +270,59 @@ def f64_abs(x: ir.f64) -> ir.f64:
 
 
 def f32_floor(x: ir.f32) -> ir.f32:
-    if math.isinf(x):
+    if math.isinf(x) or math.isnan(x):
         return x
     else:
-        return float(math.floor(x))
+        return math.copysign(float(math.floor(x)), x)
 
 
 def f64_floor(x: ir.f64) -> ir.f64:
-    if math.isinf(x):
+    if math.isinf(x) or math.isnan(x):
         return x
     else:
-        return float(math.floor(x))
+        return math.copysign(float(math.floor(x)), x)
 
 
 def f32_ceil(x: ir.f32) -> ir.f32:
-    if math.isinf(x):
+    if math.isinf(x) or math.isnan(x):
         return x
     else:
-        return float(math.ceil(x))
+        return math.copysign(float(math.ceil(x)), x)
 
 
 def f64_ceil(x: ir.f64) -> ir.f64:
-    if math.isinf(x):
+    if math.isinf(x) or math.isnan(x):
         return x
     else:
-        return float(math.ceil(x))
+        return math.copysign(float(math.ceil(x)), x)
 
 
 def f32_nearest(x: ir.f32) -> ir.f32:
-    if math.isinf(x):
+    if math.isinf(x) or math.isnan(x):
         return x
     else:
-        return float(round(x))
+        return math.copysign(float(round(x)), x)
 
 
 def f64_nearest(x: ir.f64) -> ir.f64:
-    if math.isinf(x):
+    if math.isinf(x) or math.isnan(x):
         return x
     else:
-        return float(round(x))
+        return math.copysign(float(round(x)), x)
 
 
 def f32_trunc(x: ir.f32) -> ir.f32:
-    if math.isinf(x):
+    if math.isinf(x) or math.isnan(x):
         return x
     else:
-        return float(math.trunc(x))
+        return math.copysign(float(math.trunc(x)), x)
 
 
 def f64_trunc(x: ir.f64) -> ir.f64:
-    if math.isinf(x):
+    if math.isinf(x) or math.isnan(x):
         return x
     else:
-        return float(math.trunc(x))
+        return math.copysign(float(math.trunc(x)), x)
 
 
 def unreachable() -> None:
